@@ -247,6 +247,10 @@ func check(c Case, e Expect, o Obs, bc bodyCache) []Violation {
 	car := carrierByName(c.Carrier)
 	var v []Violation
 	add := func(group string, facets [][2]string, what string, a ...any) {
+		if c.Resolver != "" || c.Present != "" {
+			facets = append(facets[:len(facets):len(facets)], [2]string{"resolver", c.Resolver}, [2]string{"presentation", c.Present})
+			group = "server-side|" + group
+		}
 		v = append(v, Violation{group, facets, fmt.Sprintf(what, a...)})
 	}
 	tr := car.Transport
@@ -286,7 +290,9 @@ func check(c Case, e Expect, o Obs, bc bodyCache) []Violation {
 			add(fmt.Sprintf("body|transport=%s|problem=%s", tr, g.problem), [][2]string{{"outcome", e.Outcome}},
 				"body is not a GraphQL response (%s): %s", g.problem, clip(o.Body))
 		case e.Outcome == "execute":
-			if !wrongOp && (g.numErrors != 0 || g.data != e.Data) {
+			// a resolver that reported an error next to its value yields data and errors
+			resolverErr := c.Resolver != "" && c.Resolver != "value"
+			if !wrongOp && ((g.numErrors != 0 && !resolverErr) || g.data != e.Data) {
 				add(fmt.Sprintf("body|transport=%s|problem=data", tr), [][2]string{{"outcome", e.Outcome}},
 					"expected data %s and no errors, got %s", e.Data, clip(o.Body))
 			}
